@@ -47,6 +47,15 @@ impl Pty {
         }
     }
 
+    /// window size as the ioctl reports it, pixel extents given explicitly (0 = a terminal
+    /// that does not fill them in)
+    pub fn set_winsize_px(&self, rows: u16, cols: u16, xpixel: u16, ypixel: u16) {
+        let ws = libc::winsize { ws_row: rows, ws_col: cols, ws_xpixel: xpixel, ws_ypixel: ypixel };
+        unsafe {
+            libc::ioctl(self.master.as_raw_fd(), libc::TIOCSWINSZ, &ws);
+        }
+    }
+
     pub fn set_winsize(&self, rows: u16, cols: u16) {
         let ws = libc::winsize { ws_row: rows, ws_col: cols, ws_xpixel: cols * 10, ws_ypixel: rows * 20 };
         unsafe {
@@ -85,6 +94,9 @@ pub struct PeerState {
     pub reply_suffix: Mutex<Vec<u8>>,
     /// the master side got EIO/hangup
     pub hangup: AtomicBool,
+    /// answer the size request `CSI 18 t CSI 14 t` with (rows, cols, pixel height, pixel width)
+    pub size_reply: Mutex<Option<(u16, u16, u16, u16)>>,
+    pub size_answered: AtomicUsize,
 }
 
 pub struct Peer {
@@ -108,6 +120,8 @@ impl Peer {
             reply_delay_ms: AtomicUsize::new(0),
             reply_suffix: Mutex::new(Vec::new()),
             hangup: AtomicBool::new(false),
+            size_reply: Mutex::new(None),
+            size_answered: AtomicUsize::new(0),
         });
         let master = pty.master.as_raw_fd();
         let st = state.clone();
@@ -116,6 +130,7 @@ impl Peer {
             .spawn(move || {
                 let mut scan = 0usize; // how much of `received` was scanned for DA1 requests
                 let mut scan_cpr = 0usize; // ... and for cursor position requests
+                let mut scan_size = 0usize; // ... and for size requests
                 let mut buf = vec![0u8; 1 << 16];
                 while !st.stop.load(Ordering::Relaxed) {
                     if st.stalled.load(Ordering::Relaxed) {
@@ -147,6 +162,8 @@ impl Peer {
                     let n = n as usize;
                     let mut answers = 0usize;
                     let mut cpr_answers = 0usize;
+                    let mut size_answers = 0usize;
+                    let size_reply = *st.size_reply.lock().unwrap();
                     {
                         let mut rec = st.received.lock().unwrap();
                         rec.extend_from_slice(&buf[..n]);
@@ -175,11 +192,33 @@ impl Peer {
                         } else {
                             scan_cpr = rec.len().saturating_sub(3);
                         }
+                        const SIZE_REQ: &[u8] = b"\x1b[18t\x1b[14t";
+                        if size_reply.is_some() {
+                            while scan_size + SIZE_REQ.len() <= rec.len() {
+                                if &rec[scan_size..scan_size + SIZE_REQ.len()] == SIZE_REQ {
+                                    size_answers += 1;
+                                    scan_size += SIZE_REQ.len();
+                                } else {
+                                    scan_size += 1;
+                                }
+                            }
+                        } else {
+                            scan_size = rec.len().saturating_sub(SIZE_REQ.len() - 1);
+                        }
                     }
                     if answers + cpr_answers > 0 {
                         let delay = st.reply_delay_ms.load(Ordering::Relaxed);
                         if delay > 0 {
                             std::thread::sleep(Duration::from_millis(delay as u64));
+                        }
+                    }
+                    if let Some((rows, cols, ph, pw)) = size_reply {
+                        for _ in 0..size_answers {
+                            let reply = format!("\x1b[8;{rows};{cols}t\x1b[4;{ph};{pw}t");
+                            st.size_answered.fetch_add(1, Ordering::SeqCst);
+                            unsafe {
+                                libc::write(master, reply.as_ptr() as *const libc::c_void, reply.len());
+                            }
                         }
                     }
                     for _ in 0..cpr_answers {
